@@ -51,6 +51,7 @@ KEY_HISTORY = "history:%sProcessTensor:set_mpo_tensor after the step was read"
 KEY_ONE_TRANSFORM = "transforms:%sProcessTensor:exactly one transform (%s only)"
 KEY_LAYOUT = "layout:%s(initial_state):%s"
 KEY_CAPS_STALE = "caps:%sProcessTensor:compute_caps after overwriting an existing step"
+KEY_TDEP_FINAL = "propagators:record_all=False with a time-dependent system and no controls"
 KEY_STACK = "controls:float-time controls of one step added in non-chronological order"
 KEY_FINAL_ONLY = "controls:post-measurement controls with record_all=False"
 
@@ -197,6 +198,31 @@ def rand_system(rng, d):
     import oqupy
     from . import cases
     return oqupy.System(cases.rand_herm(rng, d, 0.8))
+
+
+TDEP = {"h0": 0.7 * np.array([[1, 0], [0, -1]], dtype=complex),      # H(t) = h0 + sin(2t) h1 + t h2
+        "h1": 1.5 * np.array([[0, 1], [1, 0]], dtype=complex),
+        "h2": 0.9 * np.array([[0, -1j], [1j, 0]], dtype=complex)}
+
+
+def tdep_system(scale=1.0):
+    """a TimeDependentSystem whose Hamiltonian does not commute with itself at different times"""
+    import oqupy
+    return oqupy.TimeDependentSystem(
+        lambda t: scale * (TDEP["h0"] + np.sin(2 * t) * TDEP["h1"] + t * TDEP["h2"]))
+
+
+def tdep_integral(a, b, scale=1.0):
+    """integral of that Hamiltonian over [a, b], in closed form"""
+    return scale * (TDEP["h0"] * (b - a) + TDEP["h1"] * (np.cos(2 * a) - np.cos(2 * b)) / 2
+                    + TDEP["h2"] * (b * b - a * a) / 2)
+
+
+def make_system(case):
+    import oqupy
+    if case.get("tdep"):
+        return tdep_system(case["tdep"])
+    return oqupy.System(case["ham"])
 
 
 LAYOUTS = ["C", "F", "T-view", "slice"]
@@ -352,8 +378,15 @@ def dense_joint(kraus_steps, rhoE, rho0, hams, ctrl_ops, n, e, d):
     hams: system Hamiltonian (constant); ctrl_ops[(k, post)] = K  (rho -> K rho K^dagger);
     returns the reduced states of steps 0..n (pre-measurement control applied)."""
     from scipy.linalg import expm
-    u = expm(-0.5j * DT * hams)
-    Iu = np.kron(np.eye(e), u)
+    if isinstance(hams, dict):       # time dependent: exp(-i * integral of H) per half step
+        def half(k, second):
+            a = hams["start"] + k * DT + (DT / 2 if second else 0.0)
+            return np.kron(np.eye(e), expm(-1j * tdep_integral(a, a + DT / 2, hams["scale"])))
+    else:
+        Iu0 = np.kron(np.eye(e), expm(-0.5j * DT * hams))
+
+        def half(k, second):
+            return Iu0
     rho = np.kron(rhoE, rho0)
     states = []
 
@@ -373,8 +406,10 @@ def dense_joint(kraus_steps, rhoE, rho0, hams, ctrl_ops, n, e, d):
             break
         if (k, True) in ctrl_ops:
             rho = apply(rho, ctrl_ops[(k, True)])
+        Iu = half(k, False)
         rho = Iu @ rho @ Iu.conj().T
         rho = sum(W @ rho @ W.conj().T for W in kraus_steps[k])
+        Iu = half(k, True)
         rho = Iu @ rho @ Iu.conj().T
     return states
 
@@ -384,7 +419,7 @@ STACK_OFFSETS = [-0.035, -0.02, -0.01, 0.015, 0.03, 0.04]     # |offset| < dt/2:
 
 def ancilla_case(rng, variant, cls="simple", n=None, e=None, timed=False, force_step_keys=False,
                  stacked=False, chronological=False, final_only=False, force_record_all=False,
-                 layout="C"):
+                 layout="C", tdep=None):
     """build one ancilla process tensor + the inputs of compute_dynamics; returns a dict"""
     import oqupy
     from oqupy import operators as op
@@ -452,6 +487,12 @@ def ancilla_case(rng, variant, cls="simple", n=None, e=None, timed=False, force_
     #  keep reproducing)
     if final_only and not any(p and k < n for k, p in ctrl_ops):
         ctrl_ops[(rng.randrange(n), True)] = rand_k()
+    if tdep:
+        # time-dependent, self-non-commuting system Hamiltonian, NO controls, not starting at 0
+        ctrl_ops = {}
+        as_time = {}
+        if start == 0.0:
+            start = rng.choice(STARTS[1:])
     stacks = {}        # (k, post) -> [(time offset, K)] in INSERTION order
     if stacked:
         # several float-time controls of one kind at distinct times that round to the same step,
@@ -474,11 +515,15 @@ def ancilla_case(rng, variant, cls="simple", n=None, e=None, timed=False, force_
         ctl.add_single(control_key(k, start, as_time.get((k, post), False)),
                        op.left_right_super(K, K.conj().T), post=post)
     record_all = not (final_only and not force_record_all)
+    if tdep:
+        ham = {"start": start, "scale": tdep}
     return dict(d=d, e=e, n=n, variant=variant, cls=cls, kraus=kraus, Us=Us, rhoE=rhoE, rho0=rho0,
-                ham=ham, spec=spec, ctrl_ops=ctrl_ops, control=ctl, start=start, record_all=record_all,
+                ham=ham, tdep=tdep, spec=spec, ctrl_ops=ctrl_ops, control=ctl, start=start, record_all=record_all,
                 layout=layout,
                 desc={"variant": variant, "class": cls, "d": d, "e": e, "n": n, "joint": kind,
                       "initial_state_layout": layout,
+                      "system": ("H(t) = %g (0.7 sz + 1.5 sin(2t) sx + 0.9 t sy)" % tdep) if tdep
+                      else "constant",
                       "start_time": start, "record_all": record_all,
                       "controls": sorted("%d%s%s" % (
                           k, "post" if p else "pre",
@@ -492,7 +537,7 @@ def ancilla_error(case):
     import oqupy
     pt = build_pt(case["spec"], case["d"], case["n"], case["cls"])
     try:
-        real = run_real(oqupy.System(case["ham"]), case["rho0"], [pt], case["n"], case["control"],
+        real = run_real(make_system(case), case["rho0"], [pt], case["n"], case["control"],
                         case.get("start", 0.0), case.get("record_all", True), case.get("layout", "C"))
     finally:
         drop_pt(pt)
@@ -648,6 +693,10 @@ def correspondence(res, tier, rng):
         m = [0, 1, 2, 3, 2, 3, 1][c % 7]
         if tier == "quick" and m == 3:
             n = min(n, 2)
+        # forced: a self-non-commuting time-dependent system, no controls, final state only
+        tdep_case = (c % 7 == 4)
+        if tdep_case:
+            n = max(n, 2)
         specs = [rand_env_spec(rng, d, n) for _ in range(m)]
         try:
             pts = [build_pt(s, d, n) for s in specs]
@@ -662,8 +711,12 @@ def correspondence(res, tier, rng):
         system = rand_system(rng, d)
         start = STARTS[c % len(STARTS)]
         control, cdesc = rand_control(rng, d, n, start)
+        if tdep_case:
+            system, control, cdesc = tdep_system(), oqupy.Control(d), []
+            start = start or 0.37
+            res.count("system:time-dependent, no controls, final state only")
         rho0 = cases.rand_dm(rng, d)
-        rec_all = (c % 5 != 4)
+        rec_all = (c % 5 != 4) and not tdep_case
         layout = LAYOUTS[c % len(LAYOUTS)]
         real = run_real(system, rho0, pts, n, control, start, rec_all, layout)
         res.count("initial_state_layout=" + layout)
@@ -692,9 +745,18 @@ def correspondence(res, tier, rng):
                              "contraction gives states that differ by %g from a fresh object with the "
                              "same stored tensors" % (k, herr),
                              {"n": n, "envs": [s_["kind"] for s_ in specs], "env": j, "step": k})
+        if tdep_case:
+            full = run_real(system, rho0, pts, n, control, start, True, layout)
+            ferr = np.abs(real[0] - full[-1]).max() / max(1.0, np.abs(full[-1]).max())
+            if not ferr <= 1e-10:
+                res.disagree("time-dependent system without controls: the state returned with "
+                             "record_all=False differs by %g from the last state of the record_all=True "
+                             "run" % ferr, {"n": n, "envs": [s_["kind"] for s_ in specs],
+                                            "start_time": start})
         props, controls = system_parts(system, control, start)
         ls, tensors = multi_lines(pts, n, L, rho0, props, controls)
         desc = {"n": n, "envs": [s["kind"] for s in specs], "start_time": start,
+                "system": "time-dependent" if tdep_case else "constant",
                 "record_all": rec_all, "initial_state_layout": layout,
                 "bond_dims": [s.get("dims") for s in specs], "controls": cdesc}
         res.count("record_all=%s" % rec_all)
@@ -765,9 +827,14 @@ def correspondence(res, tier, rng):
         case = ancilla_case(rng, (["rank4-in-only", "rank4-out-only"][(c // 6) % 2] if c % 6 == 0
                                   else rng.choice(["rank4", "rank4", "rank3"])),
                             cls=("file" if c % 12 == 6 else "simple"),
-                            e=(1 if c % 4 == 3 else 2), n=rng.randrange(1, 4 if tier != "quick" else 3),
-                            timed=(c % 3 != 2), stacked=(c % 4 == 1), final_only=(c % 5 == 3),
-                            layout=LAYOUTS[(c + 1) % len(LAYOUTS)])
+                            e=(1 if c % 4 == 3 else 2),
+                            n=max(rng.randrange(1, 4 if tier != "quick" else 3), 2 if c % 12 == 5 else 1),
+                            timed=(c % 3 != 2), stacked=(c % 4 == 1),
+                            final_only=(c % 5 == 3 or c % 12 == 5),
+                            layout=LAYOUTS[(c + 1) % len(LAYOUTS)],
+                            tdep=(1.0 if c % 12 == 5 else None))
+        if case["tdep"]:
+            res.count("ancilla:time-dependent system, no controls, final state only")
         res.count("ancilla:initial_state_layout=" + case["layout"])
         err, real, ref = ancilla_error(case)
         res.count("ancilla:record_all=%s" % case["record_all"])
@@ -775,7 +842,7 @@ def correspondence(res, tier, rng):
             res.count("ancilla:stacked float-time controls")
         n, e = case["n"], case["e"]
         E = e * e
-        props, controls = system_parts(oqupy.System(case["ham"]), case["control"], case["start"])
+        props, controls = system_parts(make_system(case), case["control"], case["start"])
         res.count("ancilla:start_time=%s" % case["start"])
         eye = np.eye(L, dtype=complex)
         secs = ["joint %d %d %d" % (L, E, n), flat(case["rho0"]), flat(case["rhoE"]),
@@ -880,7 +947,7 @@ def correspondence(res, tier, rng):
                              "mpoRecord (ptOfJoint) by %g" % e1, desc)
             if not e2 <= 1e-12:
                 res.disagree("model: mpoRecord (ptOfJoint) differs from jointRecord / the closed-last-bond form by %g" % e2, desc)
-            if not e3 <= TOL:
+            if not e3 <= (1e-7 if desc.get("system", "constant") != "constant" else TOL):
                 res.disagree("compute_dynamics on an ancilla process tensor differs from the dense "
                              "joint evolution by %g" % e3, desc)
         elif kind == "hist":
@@ -1089,6 +1156,41 @@ def oracle_caps_gauge(res, gen_seed, cls, key=None):
     return False
 
 
+TDEP_TOL = 1e-7     # the reference integrates H(t) in closed form, the library with quad_vec
+
+
+def oracle_tdep_final(res, gen_seed, variant="rank4", cls="simple", key=None):
+    """final-only run (record_all=False) with a self-non-commuting time-dependent system and NO
+    controls, >= 2 steps: against the dense joint evolution and against the last state of the
+    record_all=True run"""
+    r0 = random.Random(gen_seed + 7)
+    n, scale = r0.randrange(2, 5), r0.choice([1.0, 1.0, 2.0])
+    mk = lambda all_: ancilla_case(random.Random(gen_seed), variant, cls, n=n, e=r0.choice([2]),
+                                   final_only=True, force_record_all=all_, tdep=scale)
+    case_f, case_a = mk(False), mk(True)
+    err_f, real_f, ref_f = ancilla_error(case_f)
+    err_a, real_a, ref_a = ancilla_error(case_a)
+    diff = np.abs(real_f[0] - real_a[-1]).max() if len(real_f) == 1 else np.inf
+    if err_a <= TDEP_TOL and (not err_f <= TDEP_TOL or not diff <= 1e-10):
+        res.fail(key or KEY_TDEP_FINAL,
+                 {"oracle": "tdep-final", "gen_seed": gen_seed, "variant": variant, "class": cls,
+                  "case": case_f["desc"], "final_state_vs_joint_evolution": float(err_f),
+                  "final_state_vs_last_state_of_record_all_run": float(diff),
+                  "max_state_difference": float(max(err_f, diff)),
+                  "how": "compute_dynamics(record_all=False, num_steps=%d, start_time=%s) with H(t) = "
+                         "%g (0.7 sz + 1.5 sin(2t) sx + 0.9 t sy) and no controls on an ancilla process "
+                         "tensor: the returned state differs by %g from the traced joint evolution and by "
+                         "%g from the last state of the record_all=True run"
+                         % (n, case_f["start"], scale, err_f, diff)})
+        return True
+    if not err_a <= TDEP_TOL:
+        res.fail(key or "joint:%s:%s:time-dependent system" % (cls, variant),
+                 {"oracle": "tdep-final", "gen_seed": gen_seed, "variant": variant, "class": cls,
+                  "case": case_a["desc"], "max_state_difference": float(err_a)})
+        return True
+    return False
+
+
 def oracle_history(res, gen_seed, variant, cls, key=None):
     """contract an ancilla process tensor, overwrite one step with the tensor of another joint map
     (set_mpo_tensor, compute_caps), contract again: must be the joint evolution with the new map
@@ -1225,6 +1327,11 @@ def search(res):
         for t in range(4):
             if oracle_ancilla(res, rng.randrange(10 ** 9), rng.choice(["rank4", "rank3"]), "simple", **kw):
                 break
+    # final-only runs with a self-non-commuting time-dependent system, no controls
+    for variant in ("rank4", "rank3"):
+        for t in range(2):
+            if oracle_tdep_final(res, rng.randrange(10 ** 9), variant):
+                break
     # compute_caps() again after overwriting existing steps (gauge change: same process, other caps)
     for cls in ("simple", "file"):
         for t in range(2):
@@ -1251,6 +1358,8 @@ def replay_case(res, payload):
                               stacked=fi.get("stacked", False), final_only=fi.get("final_only", False))
     if fi.get("oracle") == "history":
         return oracle_history(res, fi["gen_seed"], fi["variant"], fi["class"], key)
+    if fi.get("oracle") == "tdep-final":
+        return oracle_tdep_final(res, fi["gen_seed"], fi["variant"], fi["class"], key)
     if fi.get("oracle") == "caps-gauge":
         return oracle_caps_gauge(res, fi["gen_seed"], fi["class"], key)
     if fi.get("oracle") == "layout":
